@@ -493,6 +493,24 @@ theorem c06_class_verbatim {dim : Nat} {mom : Bool} {n : NS} {pr : CN → Nat} {
       · exact pick_good ht
   · cases h
 
+private theorem classComb_err {dim : Nat} {mom : Bool} {A : Option AzC} {L : Option (Option LonC)} {T : Option (Option TmpC)}
+    {e : CtorErr} (h : classComb dim mom A L T = .error e) : e = .typeError := by
+  rcases A with _ | ⟨az, a1, a2⟩ <;> rcases L with _ | lon <;> rcases T with _ | tmp <;>
+    (try simp only [classComb] at h) <;> (try (cases h; rfl))
+  by_cases hc : (tmp.isSome && lon.isNone) = true
+  · simp only [hc, if_true] at h; cases h; rfl
+  · by_cases hd : 2 + (if lon.isSome then 1 else 0) + (if tmp.isSome then 1 else 0) = dim
+    · simp [hc, hd] at h
+    · simp only [hc, hd, if_false, Bool.false_eq_true] at h; cases h; rfl
+
+/-- the classes only ever raise `TypeError` -/
+theorem c06_class_error_kind {dim : Nat} {mom : Bool} {n : NS} {pr : CN → Nat} {e : CtorErr} (h : classB dim mom n pr = .error e) :
+    e = .typeError := by
+  rw [classB_comb] at h
+  cases ho : n.other <;> simp only [ho, if_true, if_false, Bool.false_eq_true] at h
+  · exact classComb_err h
+  · cases h; rfl
+
 /-- the generic image of a name set: every name replaced by its generic spelling -/
 def AzN.collapse (a : AzN) : AzN := ⟨a.x || a.px, false, a.y || a.py, false, a.rho || a.pt, false, a.phi⟩
 def LonN.collapse (l : LonN) : LonN := ⟨l.z || l.pz, false, l.theta, l.eta⟩
@@ -607,24 +625,8 @@ theorem c06_class_partial (dim : Nat) (mom : Bool) (n : NS) (pr : CN → Nat) (h
   have hk := c06_class_accepts_iff dim mom n pr
   rw [hdim, h] at hk
   rcases hr : classB dim mom n pr with e | r
-  · cases e
-    · rfl
-    · exfalso
-      rw [classB_comb] at hr
-      cases ho : n.other <;> simp only [ho, if_true, if_false, Bool.false_eq_true] at hr
-      · rcases clsAz n pr with _ | ⟨az, a1, a2⟩ <;> rcases clsLon n pr with _ | lon <;> rcases clsTmp n pr with _ | tmp <;>
-          (try simp only [classComb] at hr) <;> (try split at hr) <;> (try split at hr) <;> cases hr
-      · cases hr
+  · rw [c06_class_error_kind hr]
   · simp [hr, okB] at hk
-
-/-- the classes only ever raise `TypeError` -/
-theorem c06_class_error_kind {dim : Nat} {mom : Bool} {n : NS} {pr : CN → Nat} {e : CtorErr} (h : classB dim mom n pr = .error e) :
-    e = .typeError := by
-  rw [classB_comb] at h
-  cases ho : n.other <;> simp only [ho, if_true, if_false, Bool.false_eq_true] at h
-  · rcases clsAz n pr with _ | ⟨az, a1, a2⟩ <;> rcases clsLon n pr with _ | lon <;> rcases clsTmp n pr with _ | tmp <;>
-      (try simp only [classComb] at h) <;> (try split at h) <;> (try split at h) <;> cases h <;> rfl
-  · cases h; rfl
 
 /-- **the discrepancies of the classes** (all are ACCEPTED although the grammar forbids them or prescribes another flavor) -/
 theorem c06_class_accepts_synonym_duplicates :
@@ -638,5 +640,113 @@ theorem c06_class_accepts_synonym_duplicates :
     Doc [.px, .py] = some ⟨true, .xy, .px, .py, none, none⟩ ∧
     classModel 3 true [.rho, .phi, .eta] = .ok ⟨true, .rhophi, .rho, .phi, some (.eta, .eta), none⟩ ∧
     Doc [.rho, .phi, .eta] = some ⟨false, .rhophi, .rho, .phi, some (.eta, .eta), none⟩ := by decide
+
+/-! ### (c) `vector.array` -/
+
+theorem CN.all_all (p : CN → Bool) (h : CN.all.all p = true) (k : CN) : p k = true := by
+  simp only [CN.all, List.all_cons, List.all_nil, Bool.and_true, Bool.and_eq_true] at h
+  cases k <;> simp [h]
+
+theorem NS.mem_toList (n : NS) (k : CN) : k ∈ n.toList ↔ n.has k = true := by
+  cases k <;> simp [NS.toList, AzN.toList, LonN.toList, TmpN.toList, NS.has, AzN.has, LonN.has, TmpN.has, List.mem_filter]
+
+private theorem doc_az_covers : ∀ a, (match docAz a with
+    | some c => CN.all.all (fun k => !a.has k || k == c.2.1 || k == c.2.2) | none => true) = true := AzN.forall (by decide)
+private theorem doc_lon_covers : ∀ l, (match docLon l with
+    | some (some c) => CN.all.all (fun k => !l.has k || k == c.2)
+    | some none => CN.all.all (fun k => !l.has k) | none => true) = true := LonN.forall (by decide)
+private theorem doc_tmp_covers : ∀ t, (match docTmp t with
+    | some (some c) => CN.all.all (fun k => !t.has k || k == c.2)
+    | some none => CN.all.all (fun k => !t.has k) | none => true) = true := TmpN.forall (by decide)
+
+/-- a documented result uses ALL the names of the set -/
+theorem c06_doc_covers {n : NS} {d : CtorRes} (h : docB n = some d) (k : CN) (hk : n.has k = true) : k ∈ d.fillers := by
+  have hA := doc_az_covers n.a; have hL := doc_lon_covers n.l; have hT := doc_tmp_covers n.t
+  unfold docB at h
+  cases ho : n.other <;> simp only [ho, if_true, if_false, Bool.false_eq_true] at h
+  · rcases hA' : docAz n.a with _ | ⟨az, a1, a2⟩ <;> rcases hL' : docLon n.l with _ | _ | l <;>
+      rcases hT' : docTmp n.t with _ | _ | t <;> simp only [hA', hL', hT'] at h hA hL hT <;> (try cases h) <;>
+      (try (simp at h; done))
+    all_goals
+      simp only [Option.isSome_none, Option.isNone_none, Option.isSome_some, Option.isNone_some, Bool.and_false, Bool.false_and,
+        Bool.and_true, if_false, Bool.false_eq_true, Option.some.injEq] at h
+      subst h
+      have h1 := CN.all_all _ hA k; have h2 := CN.all_all _ hL k; have h3 := CN.all_all _ hT k
+      simp only [NS.has, Bool.or_eq_true] at hk
+      simp only [Bool.or_eq_true, Bool.not_eq_true', beq_iff_eq] at h1 h2 h3
+      simp only [CtorRes.fillers, List.mem_append, List.mem_cons, List.not_mem_nil, or_false]
+      rcases hk with (hk | hk) | hk <;> simp_all
+  · cases h
+
+private theorem npAz_good : ∀ a, (match npAz a with | some c => azGood a c | none => true) = true := AzN.forall (by decide)
+private theorem npLon_good : ∀ l, (match npLon l with | some c => lonGood l c | none => true) = true := LonN.forall (by decide)
+private theorem npTmp_good : ∀ t, (match npTmp t with | some c => tmpGood t c | none => true) = true := TmpN.forall (by decide)
+
+/-- **`vector.array` stores verbatim and never builds a vector from an incomplete set**: whenever it accepts, the slots
+hold supplied names of the right coordinates (`Stored`), hence (`c06_wf_documented`) the names used form a documented,
+complete coordinate set, interpreted as documented; the flavor is taken from ALL names, extras included. -/
+theorem c06_array_verbatim {n : NS} {r : CtorRes} (h : npB n = .ok r) : Stored n r ∧ r.mom = n.anyMom := by
+  have hA := npAz_good n.a; have hL := npLon_good n.l; have hT := npTmp_good n.t
+  simp only [npB] at h
+  split at h
+  · cases h
+  · split at h
+    · cases h
+    · rcases hA' : npAz n.a with _ | ⟨az, a1, a2⟩ <;> simp only [hA'] at h hA
+      · cases h
+      · split at h
+        · cases h; exact ⟨stored_of_parts hA rfl rfl (by simp), rfl⟩
+        · rcases hL' : npLon n.l with _ | l <;> simp only [hL'] at h hL
+          · cases h
+          · split at h
+            · cases h; exact ⟨stored_of_parts hA hL rfl (by simp), rfl⟩
+            · rcases hT' : npTmp n.t with _ | t <;> simp only [hT'] at h hT
+              · cases h
+              · cases h; exact ⟨stored_of_parts hA hL hT (by simp), rfl⟩
+
+theorem c06_array_extras (n : NS) (r : CtorRes) (k : CN) : k ∈ npExtra n r ↔ n.has k = true ∧ k ∉ r.fillers := by
+  simp [npExtra, List.mem_filter, NS.mem_toList]
+
+private theorem np_az_doc : ∀ a, (match docAz a with | some c => npAz a == some c && !a.dup && a.any | none => true) = true :=
+  AzN.forall (by decide)
+private theorem np_lon_doc : ∀ l, (match docLon l with
+    | some (some c) => npLon l == some c && !l.dup && l.any | some none => !l.any && !l.dup | none => true) = true :=
+  LonN.forall (by decide)
+private theorem np_tmp_doc : ∀ t, (match docTmp t with
+    | some (some c) => npTmp t == some c && !t.dup && t.any | some none => !t.any && !t.dup | none => true) = true :=
+  TmpN.forall (by decide)
+
+/-- on a documented set `vector.array` builds exactly the documented vector, without extra fields -/
+theorem c06_array_documented {n : NS} {d : CtorRes} (h : docB n = some d) : npB n = .ok d ∧ npExtra n d = [] := by
+  refine ⟨?_, ?_⟩
+  · have hA := np_az_doc n.a; have hL := np_lon_doc n.l; have hT := np_tmp_doc n.t
+    unfold docB at h
+    cases ho : n.other <;> simp only [ho, if_true, if_false, Bool.false_eq_true] at h
+    · rcases hA' : docAz n.a with _ | ⟨az, a1, a2⟩ <;> rcases hL' : docLon n.l with _ | _ | l <;>
+        rcases hT' : docTmp n.t with _ | _ | t <;> simp only [hA', hL', hT'] at h hA hL hT <;> (try cases h) <;>
+        (try (simp at h; done))
+      all_goals
+        simp only [Option.isSome_none, Option.isNone_none, Option.isSome_some, Option.isNone_some, Bool.and_false, Bool.false_and,
+          Bool.and_true, if_false, Bool.false_eq_true, Option.some.injEq] at h
+        subst h
+        simp only [Bool.and_eq_true, beq_iff_eq, Bool.not_eq_true'] at hA hL hT
+        simp [npB, hA, hL, hT, ho]
+    · cases h
+  · simp only [npExtra, List.filter_eq_nil_iff, NS.mem_toList]
+    intro k hk
+    simp [c06_doc_covers h k hk]
+
+/-- discrepancies of `vector.array` with the other constructors outside the documented sets -/
+theorem c06_array_examples :
+    -- an extra momentum-spelled field turns a generic vector into a momentum vector
+    arrayModel [.x, .y, .pt] = .ok ⟨⟨true, .xy, .x, .y, none, none⟩, [.pt]⟩ ∧
+    -- both azimuthal systems: the Cartesian one wins, the other is carried along
+    arrayModel [.x, .y, .rho, .phi] = .ok ⟨⟨false, .xy, .x, .y, none, none⟩, [.rho, .phi]⟩ ∧
+    -- repeated spellings: `ValueError` (duplicate field name after renaming), not `TypeError`
+    arrayModel [.x, .px, .y] = .error .valueError ∧
+    arrayModel [.x, .y, .z, .E, .e] = .error .valueError ∧
+    -- an incomplete set is never a vector
+    arrayModel [.x, .y, .t] = .error .typeError ∧ arrayModel [.x, .z] = .error .typeError ∧
+    arrayModel [.px, .py, .pz, .theta, .E, .M] = .ok ⟨⟨true, .xy, .px, .py, some (.z, .pz), some (.t, .E)⟩, [.theta, .M]⟩ := by decide
 
 end VG
